@@ -136,3 +136,20 @@ Definition expl_case_m (site : nat) (es : list edesc) : option (bool * bool) :=
   | Some s => option_map xfacts (xsite_m s es)
   | None => None
   end.
+
+(** * the call wrappers: constructors without an explicit-specifier (op explw) *)
+(* inplace_function.hpp: inplace_function(T&& closure) (requires the closure to be invocable as R(Args...)), inplace_function(),
+   inplace_function(nullptr_t), the two converting constructors from another capacity - none is explicit; `explicit constexpr
+   operator bool`.  reference_wrapper.hpp: `template <U> constexpr reference_wrapper(U&& u)` (participates when FUN<T>(declval<U>())
+   is well-formed: lvalues of a compatible type only), `constexpr operator T&() const` - not explicit.  function_ref.hpp:
+   function_ref(F&&), function_ref(F* f) - not explicit.  One verdict per question of the harness, in its order:
+   function <- callable rvalue, callable lvalue, nullptr, function pointer, a member pointer that is not callable with the
+   signature; function(); bool <- function rvalue / lvalue; reference_wrapper<int> <- int&, int&&, int const&;
+   reference_wrapper<int const> <- int const&, int&, reference_wrapper<int>; reference_wrapper<int> <- reference_wrapper<int const>;
+   int& <- reference_wrapper<int>; int const& <- reference_wrapper<int const>; int& <- reference_wrapper<int const> *)
+Definition wrapper_ctors_m : list verdict :=
+  [VImplicit; VImplicit; VImplicit; VImplicit; VNone; VImplicit; VExplicit; VExplicit;
+   VImplicit; VNone; VNone; VImplicit; VImplicit; VImplicit; VNone; VImplicit; VImplicit; VNone].
+(* etl only: function_ref <- callable lvalue, callable rvalue, function pointer, const callable lvalue;
+   inplace_function<Sig, 32> <- inplace_function<Sig, 16> rvalue / const lvalue *)
+Definition wrapper_ctors_etl_m : list verdict := [VImplicit; VImplicit; VImplicit; VImplicit; VImplicit; VImplicit].
